@@ -591,7 +591,7 @@ async def settle(rig, pump=True, budget=20000):
     t_real = _time.monotonic()
     while True:
         spins += 1
-        if spins > budget or _time.monotonic() - t_real > 60:
+        if spins > budget or _time.monotonic() - t_real > 180:
             raise HarnessError("settle(): no quiescence within budget")
         await asyncio.sleep(0)
         if pump and rig.backend == "kv" and rig.storage is not None and rig.pending_writes():
@@ -623,7 +623,8 @@ async def settle(rig, pump=True, budget=20000):
         if busy or loop._ready:
             stable = 0
             if busy and rig.backend == "sql":
-                _time.sleep(0.0002)  # let aiosqlite's thread make progress
+                _time.sleep(0.0005)  # let aiosqlite's thread make progress
+                spins -= 1           # waiting for the database thread is bounded by wall-clock time, not by the spin budget
             continue
         if sleeping:
             loop.jump_to_next_timer()
